@@ -1,2 +1,3 @@
 pub mod c11;
 pub mod c09;
+pub mod c01;
